@@ -29,6 +29,66 @@ inductive V where
   | list (xs : List V)
   deriving Repr, Inhabited
 
+mutual
+/-- decidable equality (the `deriving` handler does not cover nested inductives) -/
+def V.decEq : (a b : V) → Decidable (a = b)
+  | .null, .null => isTrue rfl
+  | .scalar s, .scalar t =>
+    if h : s = t then isTrue (by rw [h]) else isFalse (fun e => by cases e; exact h rfl)
+  | .upload k, .upload l =>
+    if h : k = l then isTrue (by rw [h]) else isFalse (fun e => by cases e; exact h rfl)
+  | .obj a, .obj b =>
+    match V.decEqKVs a b with
+    | isTrue h => isTrue (by rw [h])
+    | isFalse h => isFalse (fun e => by cases e; exact h rfl)
+  | .list a, .list b =>
+    match V.decEqL a b with
+    | isTrue h => isTrue (by rw [h])
+    | isFalse h => isFalse (fun e => by cases e; exact h rfl)
+  | .null, .scalar _ => isFalse nofun
+  | .null, .upload _ => isFalse nofun
+  | .null, .obj _ => isFalse nofun
+  | .null, .list _ => isFalse nofun
+  | .scalar _, .null => isFalse nofun
+  | .scalar _, .upload _ => isFalse nofun
+  | .scalar _, .obj _ => isFalse nofun
+  | .scalar _, .list _ => isFalse nofun
+  | .upload _, .null => isFalse nofun
+  | .upload _, .scalar _ => isFalse nofun
+  | .upload _, .obj _ => isFalse nofun
+  | .upload _, .list _ => isFalse nofun
+  | .obj _, .null => isFalse nofun
+  | .obj _, .scalar _ => isFalse nofun
+  | .obj _, .upload _ => isFalse nofun
+  | .obj _, .list _ => isFalse nofun
+  | .list _, .null => isFalse nofun
+  | .list _, .scalar _ => isFalse nofun
+  | .list _, .upload _ => isFalse nofun
+  | .list _, .obj _ => isFalse nofun
+def V.decEqKVs : (a b : List (String × V)) → Decidable (a = b)
+  | [], [] => isTrue rfl
+  | [], _ :: _ => isFalse nofun
+  | _ :: _, [] => isFalse nofun
+  | (k, v) :: r, (k', v') :: r' =>
+    if hk : k = k' then
+      match V.decEq v v', V.decEqKVs r r' with
+      | isTrue hv, isTrue hr => isTrue (by rw [hk, hv, hr])
+      | isFalse hv, _ => isFalse (fun e => by cases e; exact hv rfl)
+      | _, isFalse hr => isFalse (fun e => by cases e; exact hr rfl)
+    else isFalse (fun e => by cases e; exact hk rfl)
+def V.decEqL : (a b : List V) → Decidable (a = b)
+  | [], [] => isTrue rfl
+  | [], _ :: _ => isFalse nofun
+  | _ :: _, [] => isFalse nofun
+  | v :: r, v' :: r' =>
+    match V.decEq v v', V.decEqL r r' with
+    | isTrue hv, isTrue hr => isTrue (by rw [hv, hr])
+    | isFalse hv, _ => isFalse (fun e => by cases e; exact hv rfl)
+    | _, isFalse hr => isFalse (fun e => by cases e; exact hr rfl)
+end
+
+instance : DecidableEq V := V.decEq
+
 /-- classes of error messages (prefix of the Go message) -/
 inductive ErrClass where
   | onlyPost | unknownContentType | multipartForm
@@ -40,6 +100,28 @@ inductive ErrClass where
   | keyNotFound | expectedNumericIndex | indexOutOfBound | expectedNil
   deriving DecidableEq, Repr, Inhabited
 
+def ErrClass.name : ErrClass → String
+  | .onlyPost => "onlyPost"
+  | .unknownContentType => "unknownContentType"
+  | .multipartForm => "multipartForm"
+  | .parseBatch => "parseBatch"
+  | .parseSingle => "parseSingle"
+  | .missingQuery => "missingQuery"
+  | .opsParseBatch => "opsParseBatch"
+  | .opsParseSingle => "opsParseSingle"
+  | .opsMissingQuery => "opsMissingQuery"
+  | .fileMapParse => "fileMapParse"
+  | .fileMapEmpty => "fileMapEmpty"
+  | .fileNotFound => "fileNotFound"
+  | .batchIndexSyntax => "batchIndexSyntax"
+  | .missingVariablesKeyword => "missingVariablesKeyword"
+  | .invalidParts => "invalidParts"
+  | .requestIndexOutOfBound => "requestIndexOutOfBound"
+  | .keyNotFound => "keyNotFound"
+  | .expectedNumericIndex => "expectedNumericIndex"
+  | .indexOutOfBound => "indexOutOfBound"
+  | .expectedNil => "expectedNil"
+
 /-- the Go operation that panicked -/
 inductive PanicClass where
   | nilRequest        -- r.Query / req.Original on a nil *Request
@@ -49,11 +131,18 @@ inductive PanicClass where
   | emitIndex         -- rs[0] on an empty Results (unreachable: see C07_single_has_one)
   deriving DecidableEq, Repr, Inhabited
 
+def PanicClass.name : PanicClass → String
+  | .nilRequest => "nilRequest"
+  | .partsEmpty => "partsEmpty"
+  | .requestIndex => "requestIndex"
+  | .listIndex => "listIndex"
+  | .emitIndex => "emitIndex"
+
 inductive Res (α : Type) where
   | ok (a : α)
   | err (e : ErrClass)
   | panic (p : PanicClass)
-  deriving Repr, Inhabited
+  deriving Repr, Inhabited, DecidableEq
 
 def Res.isPanic {α} : Res α → Bool
   | .panic _ => true
@@ -148,7 +237,7 @@ structure Req where
   query : String
   vars : Option (List (String × V))
   opName : Option String
-  deriving Repr, Inhabited
+  deriving Repr, Inhabited, DecidableEq
 
 /-- `r.Requests[idx]` -/
 def reqAt (F : Facts) (reqs : List Req) (idx : Int) : Res (Nat × Req) :=
@@ -157,37 +246,36 @@ def reqAt (F : Facts) (reqs : List Req) (idx : Int) : Res (Nat × Req) :=
     | some r => .ok (idx.toNat, r)
     | none => if F.requestIndexGuard then .err .requestIndexOutOfBound else .panic .requestIndex
 
-/-- body of `for _, path := range paths` for one path, after the split -/
+/-- the body of `for _, path := range paths` once the request index is known: keyword and length
+checks, `r.Requests[idx].Variables`, the walk -/
+def injectAt (F : Facts) (u : Nat) (idx : Int) (parts : List String) (reqs : List Req) : Res (List Req) :=
+  match parts with
+  | [] => if F.partsEmptyGuard then .err .missingVariablesKeyword else .panic .partsEmpty
+  | p0 :: rest =>
+    if p0 ≠ F.variablesKeyword then .err .missingVariablesKeyword
+    else if rest.isEmpty then .err .invalidParts
+    else match reqAt F reqs idx with
+      | .err e => .err e
+      | .panic x => .panic x
+      | .ok (i, r) =>
+        match r.vars with
+        | none => .err .keyNotFound       -- reading a nil map: not found
+        | some m =>
+          match walk F u rest m with
+          | .ok m' => .ok (reqs.set i { r with vars := some m' })
+          | .err e => .err e
+          | .panic x => .panic x
+
+/-- body of `for _, path := range paths` for one path, after the split: in batch mode the
+request index hides in the first part -/
 def injectParts (F : Facts) (batch : Bool) (u : Nat) (parts0 : List String) (reqs : List Req) : Res (List Req) :=
-  -- in batch mode the index hides in the first part
-  let pre : Res (Int × List String) :=
-    if batch then
-      match parts0 with
-      | [] => .panic .partsEmpty          -- strings.Split never returns an empty slice
-      | p0 :: ps => match atoi p0 with
-        | none => .err .batchIndexSyntax
-        | some i => .ok (i, ps)
-    else .ok (0, parts0)
-  match pre with
-  | .err e => .err e
-  | .panic x => .panic x
-  | .ok (idx, parts) =>
-    match parts with
-    | [] => if F.partsEmptyGuard then .err .missingVariablesKeyword else .panic .partsEmpty
-    | p0 :: rest =>
-      if p0 ≠ F.variablesKeyword then .err .missingVariablesKeyword
-      else if rest.isEmpty then .err .invalidParts
-      else match reqAt F reqs idx with
-        | .err e => .err e
-        | .panic x => .panic x
-        | .ok (i, r) =>
-          match r.vars with
-          | none => .err .keyNotFound       -- reading a nil map: not found
-          | some m =>
-            match walk F u rest m with
-            | .ok m' => .ok (reqs.set i { r with vars := some m' })
-            | .err e => .err e
-            | .panic x => .panic x
+  if batch then
+    match parts0 with
+    | [] => .panic .partsEmpty          -- strings.Split never returns an empty slice
+    | p0 :: ps => match atoi p0 with
+      | none => .err .batchIndexSyntax
+      | some i => injectAt F u i ps reqs
+  else injectAt F u 0 parts0 reqs
 
 def injectPath (F : Facts) (batch : Bool) (u : Nat) (path : String) (reqs : List Req) : Res (List Req) :=
   injectParts F batch u (splitDot path) reqs
@@ -291,7 +379,7 @@ def emitParts : List (Nat × List String) → List Nat → List Part × List Nat
 inductive Call where
   | multipart (req : Nat) (vars : Option (List (String × V))) (parts : List Part)
   | json (reqs : List (Nat × Option (List (String × V))))
-  deriving Repr
+  deriving Repr, DecidableEq
 
 /-- the loop of `queryBatch`: multipart calls (made inside the loop, in input order), the inputs
 left for the JSON call, and the drained readers -/
